@@ -39,15 +39,18 @@ import (
 	"github.com/mycoria/mycoria"
 	"github.com/mycoria/mycoria/config"
 	"github.com/mycoria/mycoria/m"
+	"github.com/mycoria/mycoria/state"
 	"github.com/mycoria/mycoria/storage"
 
 	"verif/core"
 	"verif/ids"
+	"verif/vnet"
 )
 
 var c18Opts = core.Opts{ID: "C18", Quick: 300, Thorough: 12000}
 
-var c18Strings = []string{"", "plain", "with \"quotes\" and \\backslash", "<script>&amp;</script>", "مرحبا بالعالم", "日本語テキスト", "emoji 😀🚀 astral 𝔘𝔫𝔦", "line\nbreak\ttab", "nul\u0001ctl", strings.Repeat("long-", 800), "ünïcödé", "a/b?c=d#e", "100% of %s and %d, Main%20Page", "ends with a percent sign %"}
+var c18Strings = []string{"", "plain", "with \"quotes\" and \\backslash", "<script>&amp;</script>", "مرحبا بالعالم", "日本語テキスト", "emoji 😀🚀 astral 𝔘𝔫𝔦", "line\nbreak\ttab", "nul\u0001ctl", strings.Repeat("long-", 800), "ünïcödé", "a/b?c=d#e", "100% of %s and %d, Main%20Page", "ends with a percent sign %",
+	strings.Repeat("日本語", 120), "x" + strings.Repeat("ü", 200), strings.Repeat("😀", 70)}
 
 // c18Open loads the state file the way the router does: the constructor loads
 // it, then the module group starts the module (and stops it at shutdown).
@@ -135,18 +138,20 @@ func c18Time(c *core.Case, label string) time.Time {
 }
 
 type c18Router struct {
-	IP       netip.Addr
-	Hash     string
-	Type     string
-	Key      []byte
-	Easing   uint64
-	HasInfo  bool
-	Info     m.RouterInfo
-	Universe string
-	Offline  bool
-	Created  time.Time
-	Updated  time.Time
-	Used     *time.Time
+	IP      netip.Addr
+	Hash    string
+	Type    string
+	Key     []byte
+	Easing  uint64
+	HasInfo bool
+	// InfoViaState: the public info is added through the state manager.
+	InfoViaState bool
+	Info         m.RouterInfo
+	Universe     string
+	Offline      bool
+	Created      time.Time
+	Updated      time.Time
+	Used         *time.Time
 }
 
 type c18Mapping struct {
@@ -183,6 +188,7 @@ func c18GenSpec(c *core.Case, maxRouters, maxMappings int) c18Spec {
 		}
 		if c.Chance("r.info", 2, 3) {
 			r.HasInfo = true
+			r.InfoViaState = c.Chance("r.info.via-state-manager", 1, 3)
 			r.Info.Version = c18Str(c, "i.version")
 			for k, n := 0, c.Int("i.listeners", 0, 8); k < n; k++ {
 				r.Info.Listeners = append(r.Info.Listeners, c18Str(c, "i.listener"))
@@ -205,6 +211,7 @@ func c18GenSpec(c *core.Case, maxRouters, maxMappings int) c18Spec {
 
 // c18Apply applies a spec to a storage through its real API.
 func c18Apply(s *storage.JSONFileStorage, sp c18Spec) error {
+	var stateMgr *state.State
 	for _, r := range sp.Routers {
 		r := r
 		sr := &storage.StoredRouter{
@@ -213,12 +220,24 @@ func c18Apply(s *storage.JSONFileStorage, sp c18Spec) error {
 		}
 		sr.Address.Hash = hashOf(r.Hash)
 		sr.Address.Type = typeOf(r.Type)
-		if r.HasInfo {
+		viaState := r.HasInfo && r.InfoViaState
+		if r.HasInfo && !viaState {
 			info := r.Info
 			sr.PublicInfo = &info
 		}
 		if err := s.SaveRouter(sr); err != nil {
 			return err
+		}
+		if viaState {
+			// The way public info gets into the storage in the router: the
+			// announcement handler hands it to the state manager.
+			if stateMgr == nil {
+				stateMgr = state.New(vnet.NewParty(ids.Get(1)), s)
+			}
+			info := r.Info
+			if err := stateMgr.AddPublicRouterInfo(r.IP, &info); err != nil {
+				return fmt.Errorf("AddPublicRouterInfo: %w", err)
+			}
 		}
 	}
 	for _, mp := range sp.Mappings {
